@@ -35,6 +35,8 @@ func Catalogue(prop, tier string) []Cfg {
 		add(pc("v2", []uint{1, 0}, 2, "fair", []int{2}, []int{2, 1}, "rr", ""))
 		add(pc("v1", []uint{1, 0}, 2, "fair", []int{2}, []int{1, 2}, "rr", ""))
 		add(pc("v2", []uint{5}, 2, "rate", []int{0}, []int{3}, "rr", ""))
+		add(pc("s2", []uint{1, 0}, 2, "fair", []int{2}, []int{1, 2}, "", ""))
+		add(pc("s1", []uint{1, 0}, 2, "fair", []int{2}, []int{1, 2}, "", ""))
 		// v2, handler pool (README style), one handler more than capacity
 		add(pc("v2", []uint{2, 1}, 2, "fair", []int{2}, []int{2}, "pool", ""))
 		add(pc("v2", []uint{2, 1}, 2, "rate", []int{2}, []int{2, 1}, "pool", "extra"))
@@ -143,6 +145,26 @@ func Catalogue(prop, tier string) []Cfg {
 			add(pc("v2", []uint{2, 1}, 4, "stray", []int{3}, []int{3, 2}, "rr", "preclosed"))
 			add(pc("v1", []uint{2, 1}, 4, "stray", []int{3}, []int{3, 2}, "rr", "preclosed"))
 			add(pc("s2", []uint{2, 1}, 3, "stray", []int{3}, []int{3, 2}, "", ""))
+			// promptness of termination: history-keyed exploration to a fixed depth, so that
+			// state carried in locals of the main loop across idle rounds (which the state
+			// key does not see) cannot merge a slow path into a prompt one
+			for _, d := range []struct {
+				disc string
+				p    []uint
+				h    uint
+				n    []int
+				deep int
+			}{
+				{"v2", []uint{1}, 1, []int{1}, 160}, {"v2", []uint{1}, 1, []int{0}, 160}, {"v2", []uint{2, 1}, 2, []int{1, 0}, 40},
+				{"s2", []uint{1}, 1, []int{1}, 120},
+			} {
+				c := pc(d.disc, d.p, d.h, "fair", []int{2}, d.n, "rr", "")
+				c.Deep = d.deep
+				if !quick {
+					c.Deep = d.deep * 3 / 2
+				}
+				add(c)
+			}
 		}
 		if prop == "C01" {
 			// endless inputs: capacity over runs of unbounded length (closed state graph)
@@ -198,6 +220,16 @@ func Catalogue(prop, tier string) []Cfg {
 		}
 		add(Cfg{Harness: "limit", Q: 2, I: 3, Cap: []int{1}, N: []int{5}, Pauses: []int64{0, 1}, Delays: []int64{0, 1}, Bound: -1})
 		add(Cfg{Harness: "limit", Q: 2, I: 3, Cap: []int{5}, N: []int{4}, Mode: "prefill", Bound: -1})
+		// v1: the context given in the options is the user's own implementation of the interface
+		for _, stop := range []string{"", "stop", "cancel"} {
+			c := pc("v1", []uint{2, 1}, 2, "fair", []int{2}, []int{2, 1}, "pool", "")
+			c.Stop, c.UserCtx = stop, true
+			add(c)
+			c = pc("s1", []uint{2, 1}, 2, "fair", []int{2}, []int{1, 1}, "", "")
+			c.Stop, c.UserCtx = stop, true
+			add(c)
+			add(Cfg{Harness: "join", Disc: "join1", J: 2, NoCopy: stop == "", UserCtx: true, Cap: []int{1}, N: []int{3}, Stop: stop, Timeout: 4, Pauses: []int64{0, 5}, Delays: []int64{0, 5}, Bound: -1})
+		}
 	case "C05x":
 	case "C05":
 		// endless inputs: data waiting for ever, runs of unbounded length (the state graph closes)
@@ -294,6 +326,19 @@ func Catalogue(prop, tier string) []Cfg {
 		add(pc("v2", []uint{2, 1}, 2, "fair", []int{0, 2}, []int{0, 3}, "rr", "idleopen"))
 		add(pc("v2", []uint{2, 1}, 3, "rate", []int{2, 0}, []int{2, 0}, "pool", "idleopen"))
 		add(pc("v1", []uint{2, 1}, 2, "fair", []int{0, 0}, []int{0, 2}, "rr", "idleopen"))
+		// v1: a priority is removed and registered again while the other input is
+		// saturated for ever (runs of unbounded length): its items are still delivered
+		for _, ops := range [][]int{{3, 5}, {2, 4}} {
+			n := []int{-1, 2}
+			if ops[0] == 2 {
+				n = []int{2, -1}
+			}
+			for _, h := range []uint{2, 4} {
+				c := pc("v1", []uint{2, 1}, h, "fair", []int{2}, n, "rr", "mixed")
+				c.Script, c.Ops = 2, ops
+				add(c)
+			}
+		}
 		// stingy: the releaser may stop for good at any time
 		add(pc("v2", []uint{2, 1}, 2, "fair", []int{3}, []int{3}, "rr", "stingy"))
 		add(pc("v2", []uint{2, 1}, 3, "rate", []int{0, 3}, []int{2, 3}, "rr", "stingy"))
@@ -719,6 +764,14 @@ func Catalogue(prop, tier string) []Cfg {
 			c = pc("v1", []uint{2, 1}, 2, "fair", []int{2}, []int{2, 1}, "pool", "norelease")
 			c.Stop = stop
 			add(c)
+		}
+		// a faulty divider, nobody reads Err(), then Stop()/cancel
+		for _, stop := range []string{"stop", "cancel"} {
+			for _, d := range []string{"s1", "v1"} {
+				c := pc(d, []uint{2, 1}, 2, "fair", []int{2}, []int{2, 1}, "pool", "")
+				c.Stop, c.Fault, c.NoErr = stop, true, true
+				add(c)
+			}
 		}
 		// Stop() and cancel() racing from two goroutines
 		for _, mode := range []string{"", "norelease"} {
